@@ -19,7 +19,8 @@ def run(rep, tier, seed):
                         "observation sequence per input: Parse, RunAfterParsed, GetDetailText, Run again, GetDetailText twice, GetAsmText, Ret.ToString/ToRepr/ToJSON, Matched/RestInput, RunExpr; VMs serve up to 4 inputs so that each meets state left by earlier ones",
                         "configurations drawn per VM: 2^4 family flags, DisableStmts/NDice/Bitwise, IgnoreDiv0, min/normal/max mode, DefaultDiceSideExpr in {'', 20, d6, x7, v_str, 1/0}, OpCountLimit in {300, 3000, 20000}, ParseExprLimit in {3000, 10^7}",
                         "byte-level inputs (exploration, the specification contributes only the contract): random bytes, token soups over the grammar's terminals and multi-byte/invalid UTF-8, truncations of corpus strings at any byte, pairs of corpus strings spliced, corpus strings with a token replaced",
-                        "a case that does not return within 8 s under these budgets is a hang; a worker process that dies is a fatal runtime error of the case it was running (the worker is restarted after it)",
+                        "a case that does not return within 30 s under these budgets is a hang; a worker process that dies is a fatal runtime error of the case it was running (the worker is restarted after it)",
+                        "spec/Host.tla: the API of one context as a state machine (Parse, RunAfterParsed, Run, RunExpr, observers in any order; classes of texts; the pending-error deviation of RunExpr modelled as it is); every call sequence of length 4 is written by TLC and replayed (quick: every 4th); only a call that does not return is a violation of C01, other differences from the model are printed as DRIFT",
                         "quick runs every 1- and 2-hole case (1-hole in all contexts) and every 8th 3-hole case; thorough runs the whole product in every context"]
     with Work("c01") as w:
         d = w.path("plan"); os.makedirs(d)
@@ -33,16 +34,39 @@ def run(rep, tier, seed):
         nb = 2000000 if thorough else 40000
         p2 = run_vh(["c01-exec", "-dir", d, "-kind", "bytes", "-n", str(nb), "-out", w.path("bytes_obs.ndjson")], env={"VERIF_SEED": str(seed)}, timeout=20000)
         s2 = json.loads(p2.stdout.strip().splitlines()[-1])
+        # call sequences of spec/Host.tla: any order of Parse / RunAfterParsed / Run / RunExpr and the observers on one context
+        hp = w.path("host_plans.ndjson")
+        rh = tlc_must_pass(run_tlc(w, "HostMC", "HostMC.cfg", env={"MAXLEN": 4, "OUT": hp}, workers=1, timeout=1800), "HostMC")
+        from concurrent.futures import ThreadPoolExecutor
+        def one(i):
+            o = w.path("host_ev.%d" % i)
+            pr = run_vh(["host-replay", "-in", hp, "-out", o, "-shard", "%d/12" % i, "-every", "1" if thorough else "4"], env={"VERIF_SEED": str(seed)}, timeout=6000)
+            return o, json.loads(pr.stdout.strip().splitlines()[-1])["sequences"]
+        with ThreadPoolExecutor(12) as ex:
+            hres = list(ex.map(one, range(12)))
+        nseq = sum(x[1] for x in hres)
         ev = w.path("ev.ndjson")
         with open(ev, "w") as out:
             out.write(open(w.path("plan_obs.ndjson")).read()); out.write(open(w.path("bytes_obs.ndjson")).read())
+            for o, _ in hres:
+                out.write(open(o).read())
         j = validate(w, ev)
         rows = read_ndjson(ev)
+        drift = []
         for b in j["bad"]:
             if len(rep.violations) >= 300:
                 break
             e = rows[b["i"] - 1]
             why = sorted(b["why"])
+            if e["ev"] == "host":
+                if "panic-escapes" in why:
+                    rep.violation({"kind": "panic", "func": e["panic"].split(":")[0], "via": e["call"], "msg": e["panic"], "key": "host-panic-%s-%s" % (e["call"], hashlib.md5(e["panic"].encode()).hexdigest()[:6]),
+                                   "what": "panic-escapes: after the calls %s the call %s panicked: %s (%d calls alike)" % (e["example"][:-1], e["example"][-1], e["panic"], e["count"]),
+                                   "features": ["c01", "host"] + why, "replay": {"event": e, "why": why}})
+                else:
+                    drift.append("call sequence %s: %s came back with %s (model: %s)%s%s, %d calls alike" % (
+                        e["example"], e["call"], e["out"], e["pred"], "" if e["same"] else ", value differs from the fresh-context value", "" if e["concat"] else ", Matched+Rest is not the input", e["count"]))
+                continue
             cfg = e.get("cfg", {})
             viol = {"kind": "panic" if e["panicVia"] else ("fatal" if e["fatal"] else "hang" if e["hang"] else "other"),
                     "func": e["panicFunc"], "via": e["panicVia"], "msg": e["panicMsg"],
@@ -50,36 +74,46 @@ def run(rep, tier, seed):
                     "what": "%s: input %r (%d inputs alike; VM had seen %d inputs) config %s: %s" % (
                         "/".join(why), e["src"][:200], e["count"], e.get("reused", 0), json.dumps(cfg),
                         ("%s panicked in %s: %s" % (e["panicVia"], e["panicFunc"], e["panicMsg"])) if e["panicVia"] else
-                        ("the process died: " + e["panicMsg"][:200]) if e["fatal"] else "no return within 8 s" if e["hang"] else "the process text differs between two requests"),
+                        ("the process died: " + e["panicMsg"][:200]) if e["fatal"] else "no return within 30 s" if e["hang"] else "the process text differs between two requests"),
                     "features": ["c01"] + why, "replay": {"event": e, "why": why}}
             rep.violation(viol)
+        for d in drift[:5]:
+            print("DRIFT property=C01 " + d)
+        if drift:
+            rep.notes.append("Host model drift (not a violation of C01): %d kinds of calls differ from spec/Host.tla, e.g. %s" % (len(drift), drift[0]))
         total = sum(e["count"] for e in rows)
         if s1["cases"] < (ncases if thorough else 10000) or s2["cases"] < nb * 0.9:
             raise MachineryError("vacuous run: plan cases %s of %d, byte-level %s of %d" % (s1, ncases, s2, nb))
         outcomes = {}
         for e in rows:
+            if e["ev"] != "c01":
+                continue
             for s in e["steps"]:
                 k = s["call"] + ":" + s["out"]
                 outcomes[k] = outcomes.get(k, 0) + e["count"]
         if outcomes.get("RunAfterParsed:error", 0) < 1000 or outcomes.get("RunAfterParsed:value", 0) < 1000 or outcomes.get("Parse:error", 0) < 1000:
             raise MachineryError("vacuous run: outcome mix %s" % outcomes)
         # binding self-test
-        base = next(e for e in rows if not e["panicVia"] and not e["hang"] and not e["fatal"] and e["detailStable"] and len(e["steps"]) > 5)
+        rows_c01 = [e for e in rows if e["ev"] == "c01"]
+        base = next(e for e in rows_c01 if not e["panicVia"] and not e["hang"] and not e["fatal"] and e["detailStable"] and len(e["steps"]) > 5)
         muts = []
         e1 = json.loads(json.dumps(base)); e1["steps"][3]["out"] = "panic"; muts.append(("one call reported as panicking", e1))
         e2 = json.loads(json.dumps(base)); e2["hang"] = True; muts.append(("hang reported", e2))
         e3 = json.loads(json.dumps(base)); e3["fatal"] = True; muts.append(("process death reported", e3))
+        hb = next(e for e in rows if e["ev"] == "host")
+        e4 = json.loads(json.dumps(hb)); e4["out"] = "panic"; muts.append(("a call of a call sequence reported as panicking", e4))
         t2 = w.path("corrupt.ndjson"); vlib.write_ndjson(t2, [m[1] for m in muts])
         rr = validate(w, t2)
         if len(rr["bad"]) != len(muts):
             raise MachineryError("binding self-test failed: %d of %d corrupted events rejected" % (len(rr["bad"]), len(muts)))
         rep.set("binding_selftest", "; ".join(m[0] for m in muts) + " -> each rejected")
-        for e in rows[:4]:
+        for e in rows_c01[:4]:
             rep.sample({"input": e["src"][:160], "config": e.get("cfg"), "calls": ["%s=%s" % (s["call"], s["out"]) for s in e["steps"]], "alike": e["count"]})
         rep.set("states", r.distinct); rep.set("transitions", r.generated)
         rep.set("traces_validated_against_impl", total)
         rep.set("plan", {"value_classes": len(hdr["reps"]), "templates": hdr["templates"], "contexts": len(hdr["contexts"]), "cases_in_product": ncases,
-                         "plan_inputs_run": s1["cases"], "byte_level_inputs_run": s2["cases"], "distinct_observations": len(rows), "api_calls_by_outcome": outcomes})
+                         "plan_inputs_run": s1["cases"], "byte_level_inputs_run": s2["cases"], "distinct_observations": len(rows), "api_calls_by_outcome": outcomes,
+                         "host_call_sequences_replayed": nseq, "host_model_states": rh.distinct})
         rep.set("distinct_nontrivial", len(rows))
         rep.set("rule", "one input = the full observation sequence on a configured VM; inputs with identical outcomes are merged; distinct = distinct outcome signatures")
 
